@@ -181,7 +181,10 @@ class RefReader(object):
     ``items()`` -> list of ("row", row) / ("err", {kind, line, cell?, field?, see_also?}) as yield mode
     must produce them; ``end_error()`` -> name of the first failing end check or None."""
 
-    def __init__(self, spec, raw_rows, until=None):
+    def __init__(self, spec, raw_rows, until=None, keys_of_accepted_rows_only=False):
+        # keys_of_accepted_rows_only: an IsUnique key counts once its row is accepted by every check (C05's statement);
+        # otherwise once the row reached that check, as the code does (the two differ only under two IsUnique checks)
+        self.keys_of_accepted_rows_only = keys_of_accepted_rows_only
         self.spec = spec
         self.rows = raw_rows
         self.until = until
@@ -218,6 +221,7 @@ class RefReader(object):
                 items.append(("err", {"kind": "cell", "line": number - 1, "cell": bad, "field": self.names[bad]}))
                 continue
             rejected = None
+            pending = []
             for description, kind, rule in checks:
                 self.reached[description].append(number)
                 if kind == "IsUnique":
@@ -227,7 +231,10 @@ class RefReader(object):
                         rejected = {"kind": "check", "line": number - 1, "see_also": seen[description][key],
                                     "check": description}
                         break
-                    seen[description][key] = number - 1
+                    if self.keys_of_accepted_rows_only:
+                        pending.append((description, key))
+                    else:
+                        seen[description][key] = number - 1
                 elif kind == "DistinctCount":
                     name = rule.split()[0]
                     distinct[description].add(row[self.names.index(name)])
@@ -235,6 +242,8 @@ class RefReader(object):
                 items.append(("err", rejected))
             else:
                 items.append(("row", list(row)))
+                for description, key in pending:
+                    seen[description][key] = number - 1
             self.snapshots[len(items)] = {description: len(values) for description, values in distinct.items()}
         end = None
         for description, kind, rule in checks:
